@@ -499,6 +499,7 @@ func (g *FnGen) lockHook(ci ssa.CallInstruction, name, guard string) {
 	r := g.root()
 	if r.acquired == nil {
 		r.acquired = map[string]State{}
+		r.acquiredType = map[string]string{}
 	}
 	site := g.siteNames[ci]
 	if acquire {
@@ -535,7 +536,27 @@ func (g *FnGen) lockHook(ci ssa.CallInstruction, name, guard string) {
 			g.assumeClause(guard, cl.E, ctx, "rely:"+tn)
 		}
 		r.acquired[owner.T] = g.st.clone()
+		r.acquiredType[owner.T] = tn
 		return
+	}
+	if _, ok := r.acquired[owner.T]; !ok {
+		// The released monitor is written differently from the acquired one (the owner pointer was
+		// loaded again, e.g. itr.nd.mu.Lock() ... itr.nd.mu.Unlock()). If exactly one monitor of
+		// this type is held, the release is of that one provided both expressions denote the same
+		// object: that is an obligation, and the critical section is then judged as usual.
+		var held []string
+		for o, t := range r.acquiredType {
+			if t == tn {
+				if _, still := r.acquired[o]; still {
+					held = append(held, o)
+				}
+			}
+		}
+		if len(held) == 1 {
+			g.oblige("lockinv", site+"/"+tn+":released-monitor-is-the-acquired-one", guard, "(= "+owner.T+" "+held[0]+")", "the mutex released here belongs to the object whose mutex was acquired", ci.Pos())
+			r.acquired[owner.T] = r.acquired[held[0]]
+			delete(r.acquired, held[0])
+		}
 	}
 	for i, cl := range g.S.LockInvs[tn] {
 		ctx := &EvalCtx{g: g, env: map[string]Val{"self": owner}, st: g.st, oldSt: g.st}
